@@ -143,6 +143,9 @@ class CoverpointBinCollectionModel(CoverpointBinModelBase):
             if len(self.bin_l) == len(oth.bin_l):
                 for i in range(len(self.bin_l)):
                     eq &= self.bin_l[i].equals(oth.bin_l[i])
+            else:
+                # A different number of bins is a different shape
+                eq = False
             
         return eq
     
